@@ -179,7 +179,7 @@ def isComplete (catchAll : Bool) (code : List Nat) (p : ParseOutcome) : IsComple
     else .invalid
 
 def isWordByte (c : Nat) : Bool :=
-  (48 ≤ c && c ≤ 57) || (65 ≤ c && c ≤ 90) || (97 ≤ c && c ≤ 122) || c = 95 || c = 46
+  (48 ≤ c && c ≤ 57) || (65 ≤ c && c ≤ 90) || (97 ≤ c && c ≤ 122) || c = 95 || c = 46 || 128 ≤ c
 
 /-- longest suffix of `[\w.]` characters (ASCII) -/
 def wordSuffix (s : List Nat) : List Nat := (s.reverse.takeWhile isWordByte).reverse
@@ -289,7 +289,7 @@ deriving Repr
 
 /-- `session_shutdown()` -/
 def sessionShutdown (s : Sess) : Sess :=
-  if s.up then { s with up := false, shutdowns := s.shutdowns + 1 } else s
+  if s.up then { s with up := false, shutdowns := s.shutdowns + 1, hkAlive := false } else s   -- cancels every task, housekeeping included
 
 /-- one message taken off `housekeep_q` by `housekeep_run` -/
 def hkStep (s : Sess) (m : HkMsg) : Sess :=
